@@ -34,6 +34,9 @@ func init() {
 var c03Unary = []ref.Instr{
 	{Op: "scale", F: -2.5}, {Op: "scale", F: 0}, {Op: "scale", F: 1e10},
 	{Op: "pow", F: 2}, {Op: "pow", F: 3}, {Op: "pow", F: 0}, {Op: "pow", F: 1}, {Op: "pow", F: -1}, {Op: "pow", F: -2}, {Op: "pow", F: 0.5}, {Op: "pow", F: 2.5}, {Op: "pow", F: -0.5},
+	// scalar ARGUMENTS at the edges of their range: whole exponents beyond int64, large whole and fractional exponents, factors near the float limits
+	{Op: "pow", F: 1e19}, {Op: "pow", F: 9.3e18}, {Op: "pow", F: 1e30}, {Op: "pow", F: -1e19}, {Op: "pow", F: 40}, {Op: "pow", F: 63}, {Op: "pow", F: 1e15}, {Op: "pow", F: 0.1}, {Op: "pow", F: 1023.5},
+	{Op: "scale", F: 1e-300}, {Op: "scale", F: 1e300}, {Op: "scale", F: 5e-324}, {Op: "scale", F: 1}, {Op: "scale", F: -1},
 	{Op: "exp"}, {Op: "log"}, {Op: "sin"}, {Op: "cos"}, {Op: "tan"}, {Op: "sinh"}, {Op: "cosh"}, {Op: "tanh"},
 }
 
